@@ -15,6 +15,7 @@ import (
 	"math/rand"
 	"runtime"
 	"sort"
+	"strings"
 	"sync"
 	"testing"
 	"testing/synctest"
@@ -352,6 +353,13 @@ func (x *Exec) loop() {
 			x.Trace = append(x.Trace, fmt.Sprintf("[%v] TICK (forced)", time.Since(x.start)))
 			if !x.tick() {
 				x.Verdict = "blocked"
+				var stuck []string
+				for _, th := range x.threads {
+					if th.Harness && !th.done {
+						stuck = append(stuck, th.Name)
+					}
+				}
+				x.Violate("blocked-forever:"+strings.Join(stuck, "+"), "no thread is enabled and no timer fires within %v of virtual time; unfinished: %v", x.opts.Horizon, stuck)
 				return
 			}
 			x.last = nil
@@ -369,7 +377,15 @@ func (x *Exec) loop() {
 			choice = x.prefix[i]
 			if i < len(x.expect) && x.expect[i] != p.Sig {
 				x.Verdict = "diverged"
-				x.Diverged = fmt.Sprintf("point %d: alternatives differ from the recorded execution (nondeterminism not owned by the harness)", i)
+				var alts []string
+				for _, th := range en {
+					alts = append(alts, fmt.Sprintf("t%d:%s", th.ID, th.pending))
+				}
+				tail := x.Trace
+				if len(tail) > 6 {
+					tail = tail[len(tail)-6:]
+				}
+				x.Diverged = fmt.Sprintf("point %d: alternatives differ from the recorded execution (nondeterminism not owned by the harness); here: %v tick=%v; last steps: %v", i, alts, tickOffered, tail)
 				return
 			}
 			if choice >= n {
